@@ -341,9 +341,7 @@ func minimise(b *Build, rf *ReplayFile, race bool, want map[string]bool, budget 
 			}
 		}
 	}
-	// 4. switch points
-	ddSwitches()
-	// 5. operations: disable entries in place (ddmin per task)
+	// 4-6. switch points and operations (disabled in place, ddmin per task), alternating until neither shrinks further
 	enabled := func(p []Op) []int {
 		var ix []int
 		for i := range p {
@@ -353,41 +351,56 @@ func minimise(b *Build, rf *ReplayFile, race bool, want map[string]bool, budget 
 		}
 		return ix
 	}
-	for t := 0; t < len(last(cur).Tasks); t++ {
-		chunk := (len(enabled(last(cur).Tasks[t])) + 1) / 2
-		for chunk >= 1 && time.Now().Before(deadline) {
-			removed := false
-			pos := 0
-			for {
-				ix := enabled(last(cur).Tasks[t])
-				if pos >= len(ix) {
+	ddOps := func() {
+		for t := 0; t < len(last(cur).Tasks); t++ {
+			chunk := (len(enabled(last(cur).Tasks[t])) + 1) / 2
+			for chunk >= 1 && time.Now().Before(deadline) {
+				removed := false
+				pos := 0
+				for {
+					ix := enabled(last(cur).Tasks[t])
+					if pos >= len(ix) {
+						break
+					}
+					end := pos + chunk
+					if end > len(ix) {
+						end = len(ix)
+					}
+					s := cloneSpec(last(cur))
+					for _, i := range ix[pos:end] {
+						s.Tasks[t][i] = Op{K: 0, A: -1, B: -1}
+					}
+					if c := with(cur, s); try(c) {
+						cur = c
+						removed = true
+					} else {
+						pos = end
+					}
+				}
+				if chunk == 1 {
 					break
 				}
-				end := pos + chunk
-				if end > len(ix) {
-					end = len(ix)
+				if !removed {
+					chunk /= 2
 				}
-				s := cloneSpec(last(cur))
-				for _, i := range ix[pos:end] {
-					s.Tasks[t][i] = Op{K: 0, A: -1, B: -1}
-				}
-				if c := with(cur, s); try(c) {
-					cur = c
-					removed = true
-				} else {
-					pos = end
-				}
-			}
-			if chunk == 1 {
-				break
-			}
-			if !removed {
-				chunk /= 2
 			}
 		}
 	}
-	// 6. switch points again (fewer operations, fewer needed)
-	ddSwitches()
+	size := func() int {
+		n := len(last(cur).Sched.Replay)
+		for _, p := range last(cur).Tasks {
+			n += len(enabled(p))
+		}
+		return n
+	}
+	for round := 0; round < 6 && time.Now().Before(deadline); round++ {
+		before := size()
+		ddSwitches()
+		ddOps()
+		if size() == before {
+			break
+		}
+	}
 	// 7. compaction: drop disabled entries and renumber switch points
 	{
 		s := cloneSpec(last(cur))
